@@ -1093,9 +1093,12 @@ fn parse_deflocalkeys(
                     })
                 })
                 .and_then(|osc| {
-                    OsCode::from_u16(osc).ok_or_else(|| {
-                        anyhow_expr!(v, "Unknown number in {def_local_keys_variant}: {osc}")
-                    })
+                    OsCode::from_u16(osc)
+                        // Layer rows have KEYS_IN_ROW slots; a code at or beyond that cannot be mapped.
+                        .filter(|o| usize::from(*o) < KEYS_IN_ROW)
+                        .ok_or_else(|| {
+                            anyhow_expr!(v, "Unknown number in {def_local_keys_variant}: {osc}")
+                        })
                 })?,
             None => bail_expr!(key_expr, "Key without a number in {def_local_keys_variant}"),
         };
